@@ -7,8 +7,14 @@ import (
 	"fmt"
 	"math/rand"
 	"net/url"
+	"os"
 	"strings"
 	"testing"
+	"time"
+
+	"servitor/verifchk/wk"
+	"servitor/verifkit/sim"
+	"servitor/verifkit/world"
 
 	"servitor/object"
 	"servitor/pub"
@@ -327,6 +333,239 @@ func TestVerifC10(t *testing.T) {
 			}
 		}
 	}
+	// Part 3: remote and cyclic chains
+	s, err := sim.Start(os.Getenv("VERIF_TMP"))
+	if err != nil {
+		c.Inconclusive("simulator: " + err.Error())
+		return
+	}
+	defer s.Close()
+	nRemote := c.Share(c.Pick(800, 5000))
+	for i := 0; i < nRemote; i++ {
+		n := caseNo
+		caseNo++
+		if !c.Begin(n, fmt.Sprintf("remote chain %d", i)) {
+			continue
+		}
+		remoteCase(c, s, c.Rand(n, 0), n)
+		c.Count("remote_chains", 1)
+		c.Nontrivial(fmt.Sprintf("remote:%d:%d", c.R.Shard, n))
+	}
+}
+
+/* ---------- remote and cyclic chains through the TLS simulator ---------- */
+
+type remoteLayout struct {
+	Sizes   []int  `json:"sizes"`     // root, then pages
+	Tail    string `json:"tail"`      // "" end | "cycle:<k>" next of the last page points back to page k | "404" | "forged" (page served under another id) | "self"
+	Ordered bool   `json:"ordered"`
+	Reqs    []int  `json:"request_sizes"`
+}
+
+func remoteCase(c *ev.Ctx, s *sim.Sim, r *rand.Rand, n int) {
+	np := 1 + r.Intn(6)
+	l := remoteLayout{Sizes: make([]int, np+1), Ordered: r.Intn(2) == 0}
+	for i := range l.Sizes {
+		if r.Intn(3) == 0 {
+			l.Sizes[i] = 0
+		} else {
+			l.Sizes[i] = 1 + r.Intn(4)
+		}
+	}
+	switch r.Intn(6) {
+	case 0:
+		l.Tail = fmt.Sprintf("cycle:%d", 1+r.Intn(np))
+	case 1:
+		l.Tail = "404"
+	case 2:
+		l.Tail = "forged"
+	case 3:
+		l.Tail = "self"
+	}
+	if strings.HasPrefix(l.Tail, "cycle") && r.Intn(3) == 0 {
+		// a cycle consisting of empty pages only
+		for i := 1; i < len(l.Sizes); i++ {
+			l.Sizes[i] = 0
+		}
+	}
+	for i, k := 0, r.Intn(6); i < k; i++ {
+		l.Reqs = append(l.Reqs, []int{1, 2, 3, 5, 6, 0}[r.Intn(6)])
+	}
+	w := world.New(r, []string{s.Host(2), s.Host(3)})
+	w.Stamp = false
+	base := fmt.Sprintf("https://%s/c10/%d-%d-%d", s.Host(2), c.R.Shard, n, r.Intn(1<<30))
+	addr := func(p int) string {
+		if p == 0 {
+			return base
+		}
+		return fmt.Sprintf("%s?page=%d", base, p)
+	}
+	kind, key := "Collection", "items"
+	if l.Ordered {
+		kind, key = "OrderedCollection", "orderedItems"
+	}
+	tag := func(p, i int) string { return fmt.Sprintf("e-%d-%d", p, i) }
+	for p := 0; p <= np; p++ {
+		doc := map[string]any{"id": addr(p), "type": kind}
+		nextKey := "first"
+		if p > 0 {
+			doc["type"] = kind + "Page"
+			nextKey = "next"
+		}
+		items := make([]any, l.Sizes[p])
+		for i := range items {
+			items[i] = tag(p, i)
+		}
+		doc[key] = items
+		doc["totalItems"] = 99.0
+		if p < np {
+			doc[nextKey] = addr(p + 1)
+		} else {
+			switch {
+			case strings.HasPrefix(l.Tail, "cycle"):
+				var k int
+				fmt.Sscanf(l.Tail, "cycle:%d", &k)
+				doc[nextKey] = addr(k)
+			case l.Tail == "404":
+				doc[nextKey] = base + "/missing"
+			case l.Tail == "self":
+				doc[nextKey] = addr(p)
+			case l.Tail == "forged":
+				forged := fmt.Sprintf("https://%s/c10-forged/%d-%d", s.Host(3), n, r.Intn(1<<30))
+				// the forged page claims an id on the collection's host that does not exist there: the re-fetch fails
+				w.SetDoc(forged, map[string]any{"id": base + "/ghost-page", "type": kind + "Page", key: []any{"forged-item"}})
+				doc[nextKey] = forged
+			}
+		}
+		w.SetDoc(addr(p), doc)
+	}
+	s.SetHandler(wk.Handler(w))
+	d := map[string]any{"remote_layout": l}
+	// reference: infinite-aware walk
+	next := func(p int) (int, string) { // returns next page index or -1, and why the chain stops
+		if p < np {
+			return p + 1, ""
+		}
+		switch {
+		case strings.HasPrefix(l.Tail, "cycle"):
+			var k int
+			fmt.Sscanf(l.Tail, "cycle:%d", &k)
+			return k, ""
+		case l.Tail == "self":
+			return p, ""
+		case l.Tail == "404", l.Tail == "forged":
+			return -1, "broken"
+		}
+		return -1, "end"
+	}
+	fail := func(sig, f string, a ...any) {
+		c.Violation("paging:remote:"+sig, fmt.Sprintf(f, a...)+fmt.Sprintf("\nlayout %+v", l), d)
+	}
+	item, err := pub.NewCollection(base, nil, construct)
+	if err != nil {
+		fail("root-rejected", "NewCollection failed on a well-formed remote root: %v", err)
+		return
+	}
+	var cont pub.Container = item
+	var off uint
+	page, idx := 0, 0 // position of the next expected item in the reference walk
+	consecutiveEmpty := 0
+	failed := false
+	// advance the reference to the next existing item; reports whether a cut is legitimate on the way
+	advance := func() (tagWanted string, cutOK bool, ended bool) {
+		empt := 0
+		p, i := page, idx
+		for steps := 0; steps < 64; steps++ {
+			if i < l.Sizes[p] {
+				page, idx = p, i
+				return tag(p, i), cutOK || empt >= 4, false
+			}
+			if !(p == page && idx > 0) || l.Sizes[p] == 0 {
+				if l.Sizes[p] == 0 {
+					empt++
+				}
+			}
+			np2, why := next(p)
+			if np2 < 0 {
+				return "", why == "broken" || empt >= 4, true
+			}
+			p, i = np2, 0
+			if empt >= 4 {
+				cutOK = true
+			}
+		}
+		return "", true, true // endless empties
+	}
+	_ = consecutiveEmpty
+	delivered := 0
+	for req := 0; req < 12; req++ {
+		nReq := 4
+		if req < len(l.Reqs) {
+			nReq = l.Reqs[req]
+		}
+		mark := s.LogLen()
+		var items []pub.Tangible
+		var nextC pub.Container
+		var nextOff uint
+		done := make(chan struct{})
+		go func() {
+			defer close(done)
+			c.Guard("paging:remote:", d, func() { items, nextC, nextOff = cont.Harvest(uint(nReq), off) })
+		}()
+		select {
+		case <-done:
+		case <-time.After(60 * time.Second):
+			c.Abandon("paging:remote:does-not-return", fmt.Sprintf("Harvest(%d) on a %s chain did not return within 60 s; layout %+v", nReq, l.Tail, l), d)
+		}
+		c.Count("harvest_calls", 1)
+		visited := s.LogLen() - mark
+		if visited > nReq+8 {
+			fail("unbounded-visits", "request %d for %d items fetched %d pages", req, nReq, visited)
+			return
+		}
+		for _, it := range items {
+			id := stub.IDOf(it)
+			if failed {
+				fail("item-after-error", "request %d delivered %s after an error item", req, id)
+				return
+			}
+			want, cutOK, ended := advance()
+			if id == "FAIL" {
+				failed = true
+				if !cutOK {
+					fail("illegitimate-cut", "request %d cut the delivery after %d items (%s) although the next item %q is reachable without a broken page or four consecutive empty pages", req, delivered, stripSGR(it.Name()), want)
+					return
+				}
+				c.Count("legit_cuts_seen", 1)
+				continue
+			}
+			if ended {
+				fail("extra-item", "request %d delivered %s beyond the end of the chain", req, id)
+				return
+			}
+			if id != want {
+				fail("gap-or-reorder", "request %d delivered %s, expected %s (item %d)", req, id, want, delivered)
+				return
+			}
+			delivered++
+			idx++
+		}
+		if nextC == nil {
+			if !failed {
+				if _, cutOK, ended := advance(); !ended && !cutOK {
+					fail("lost-items", "paging ended without an error after %d items although more are reachable", delivered)
+				}
+			}
+			c.Count("exhausted_runs", 1)
+			return
+		}
+		if cc, ok := nextC.(*pub.Collection); ok && cc == nil {
+			fail("typed-nil-continuation", "request %d returned a typed nil", req)
+			return
+		}
+		cont, off = nextC, nextOff
+	}
+	c.Count("capped_runs_on_cyclic_chains", 1)
 }
 
 func randomCase(r *rand.Rand) caseDesc {
